@@ -190,6 +190,8 @@ package lexer
 //@   requires LexInv(l) && l.char != 0
 //@   goal terminated: result1 ==> byteAt(l.input, l.pos-1) == old(int(l.char)) && l.pos <= len(l.input) && l.pos > old(l.pos)+1
 //@   goal unterminated-is-reported: !result1 ==> l.char == 0 && l.pos <= len(l.input)
+//@   goal value-is-the-text-between-the-quotes: result1 && l.pos > old(l.pos)+2 ==> result0 == lib("strings.ReplaceAll", l.input[old(l.pos)+1 : l.pos-1], "\\" + string(old(l.char)), string(old(l.char)))
+//@   goal empty-literal: result1 && l.pos == old(l.pos)+2 ==> result0 == ""
 //@   ensures LexInv(l) && l.pos > old(l.pos) && l.startPos == old(l.pos)
 //@   modifies @POS, @START
 //@   loop 0: invariant LexInv(l) && l.startPos == old(l.pos) && l.pos > old(l.pos) && l.pos <= len(l.input)
@@ -207,7 +209,11 @@ package lexer
 //@   loop 0: invariant tok == token.ILLEGAL || isDirectiveType(tok)
 //@   loop 0: decreases len(l.input) - l.pos
 
+// C05: @else, @end, @break and @continue take no arguments: what follows them is text again,
+// also when it begins with '('; every other directive is followed by its argument list
 //@ func (l *Lexer) directiveToken
+//@   goal argument-less-directives-return-to-text: (result.Type == token.ELSE || result.Type == token.END || result.Type == token.BREAK || result.Type == token.CONTINUE) ==> l.isHTML && !l.isDirective
+//@   goal mode-flags-are-complementary: isDirectiveType(result.Type) ==> l.isHTML == !l.isDirective
 //@   requires LexInv(l) && l.char == '@'
 //@   ensures LexInv(l) && l.pos > old(l.pos) && l.startPos >= old(l.pos) && l.startPos < l.pos && TokSpan(l, result)
 //@   ensures live(result.Type) ==> l.startPos == old(l.pos)
